@@ -3,6 +3,7 @@ import Liquid.Value
 import Liquid.Parse
 import Liquid.TrimWriter
 import Liquid.ExprParse
+import Liquid.Std
 import Liquid.Call
 import Liquid.Filters.Num
 /-!
@@ -37,7 +38,7 @@ def selectorOf (kind : String) : Bytes :=
   match kind with
   | "assign" => kwAssign | "cycle" => kwCycle | "loop" => kwLoop | "when" => kwWhen | _ => []
 /-- every modelled filter body; each `Filters/*.lean` file contributes its `impls` list here -/
-def allFilterImpls : List (Bytes × FilterImpl) := Num.impls
+def allFilterImpls : List (Bytes × FilterImpl) := stdFilterImpls
 
 def showValRes : Res Cause GoVal → String
   | .ok v => "ok " ++ v.enc
@@ -62,6 +63,33 @@ def runFilterCase (name : String) (vals : List String) : String :=
   | some (recv :: args) => showValRes (evalFilter (lookupImpl allFilterImpls) (hexDecode name) recv args)
   | _ => "unmodelled parse"
 
+/-- `<strict 0|1>/<delims|->/<fs|->`, fs = comma-separated `<namehex>:<srchex>` -/
+def parseEngineCfg (f : String) : Option (Bool × List Bytes × List (Bytes × Bytes)) :=
+  match f.splitOn "/" with
+  | [st, d, fsF] =>
+    let files := if fsF == "-" then [] else (fsF.splitOn ",").filterMap fun p =>
+      match p.splitOn ":" with
+      | [n, c] => some (hexDecode n, hexDecode c)
+      | _ => none
+    some (st == "1", parseDelims d, files)
+  | _ => none
+
+def envOfVal : GoVal → Option Env
+  | .map _ _ kvs => some (kvs.filterMap fun kv => match kv.1 with | .str k => some (k, kv.2) | _ => none)
+  | _ => none
+
+/-- `render <cfg> <pathhex> <line> <srchex> <envenc>` -/
+def runRenderCase (cfgF pathF lineF srcF envF : String) : String :=
+  match parseEngineCfg cfgF, GoVal.parse envF with
+  | some (strict, delims, files), some ev =>
+    (match envOfVal ev with
+     | some env =>
+       let path := hexDecode pathF
+       let cfg : Cfg := { strict := strict, path := path, delims := delims }
+       (run stdPrims stdOut cfg (fsOfList files) 8 (hexDecode srcF) lineF.toNat! env).show path
+     | none => "unmodelled env")
+  | _, _ => "unmodelled parse"
+
 def runCase (line : String) : String :=
   match line.splitOn " " with
   | ["scan", d, ln, src] =>
@@ -71,6 +99,7 @@ def runCase (line : String) : String :=
     showCalls (writeCalls os)
   | ["eparse", kind, src] =>
     showStmt kind (parseSource (selectorOf kind ++ hexDecode src))
+  | ["render", cfgF, pathF, lineF, srcF, envF] => runRenderCase cfgF pathF lineF srcF envF
   | ["val", v] =>
     match GoVal.parse v with
     | some x => x.enc
